@@ -3,6 +3,7 @@ package main
 import (
 	"encoding/json"
 	"fmt"
+	"github.com/Trendyol/go-dcp/couchbase"
 	"math"
 	"time"
 
@@ -93,6 +94,9 @@ func init() {
 				{Scenario: "c12_finite", Params: mustJSON(FiniteParams{Empty: true}), Bound: b - 1, Shards: 8, Note: "one assigned vBucket has no events at all"},
 				{Scenario: "c12_conc", Params: mustJSON(struct{}{}), Bound: b - 1, Shards: 8, Note: "transient end (node 0) and final end (node 1) concurrently with each other and with events on a third vBucket"},
 			}
+			out = append(out, Instance{Scenario: "c12_afterrebalance", Params: mustJSON(AfterRebParams{CloseFault: true}), Bound: 0, Shards: 8, Note: "a close-stream request of the rebalance fails (lost reply / dead connection): the sessions after it obey the stop rule"})
+			out = append(out, Instance{Scenario: "c12_afterrebalance", Params: mustJSON(AfterRebParams{OldServer: true}), Bound: 1, Shards: 8, Note: "server below 5.5.0 (serial close): the end of the last vBucket against the tail of Close(), all single deviations"})
+			out = append(out, Instance{Scenario: "c12_afterrebalance", Params: mustJSON(AfterRebParams{OldServer: true, CloseFault: true}), Bound: 0, Shards: 8, Note: "serial close with a failing close-stream request: ends in the next session are still processed"})
 			out = append(out, Instance{Scenario: "c12_afterrebalance", Params: mustJSON(struct{}{}), Bound: 1, Shards: 8, Note: "the stop rule in the sessions after 1..2 real rebalances"})
 			out = append(out, Instance{Scenario: "c12_duringopen", Params: mustJSON(struct{}{}), Bound: b - 1, Shards: 4, Note: "a stream ends while Open() still waits for another vBucket (start-up and re-open after a rebalance)"})
 			for f := 1; f <= 5; f++ {
@@ -573,26 +577,61 @@ func init() {
 	}
 }
 
+type AfterRebParams struct {
+	OldServer  bool `json:"old_server"`  // below 5.5.0: streams are closed one at a time, END is not announced by the server
+	CloseFault bool `json:"close_fault"` // one close-stream request of the first rebalance fails
+}
+
 // c12_afterrebalance: the "stops on its own iff every assigned vBucket ended for good" rule in the sessions
 // that follow 1..2 real rebalances (Close + re-Open of the same stream object): every vBucket then ends
 // with an enumerated final cause in an enumerated order (optionally one transient end first); the stop
 // signal must be raised exactly when the last one ended, and the active count must follow.
 func init() {
 	scenarios["c12_afterrebalance"] = func(raw json.RawMessage) *vrt.Scenario {
+		var p AfterRebParams
+		_ = json.Unmarshal(raw, &p)
 		return &vrt.Scenario{Name: "c12_afterrebalance", FreeChoices: true, NoTimerAlt: true, MaxSteps: 400000, Main: func() {
 			resetGlobals()
 			o := EnvOpts{Vbs: 3, CheckpointType: "manual", WrapMeta: true, RebalanceDelay: time.Second}
+			if p.OldServer {
+				o.Version = &couchbase.Version{Major: 5, Minor: 0, Patch: 1}
+			}
 			c := NewCluster(&o)
 			e := NewEnv(c, o)
 			e.Cons.AutoAck = true
 			e.Stream.Open()
 			c.WaitIdle()
 			nreb := 1 + vrt.Choose(2, true, "rebalances")
+			if p.CloseFault {
+				// one close-stream request of the FIRST rebalance fails: rejected, or the connection is gone
+				fvb := uint16(vrt.Choose(3, true, "close-fault-vb"))
+				how := vrt.Choose(3, true, "close-fault")
+				armed := true
+				c.Fault = func(r *gocbcore.SimRequest) gocbcore.SimAnswer {
+					if armed && r.Kind == "closestream" && r.Vb == fvb {
+						armed = false
+						switch how {
+						case 0:
+							return gocbcore.SimAnswer{Kind: "applydrop"} // applied, the reply is lost (time-out)
+						case 1:
+							c.EndStream(fvb, gocbcore.ErrSocketClosed)
+							return gocbcore.SimAnswer{Kind: "err", Err: gocbcore.ErrSocketClosed}
+						default:
+							c.EndStream(fvb, gocbcore.ErrSocketClosed)
+							return gocbcore.SimAnswer{Kind: "err", Err: gocbcore.ErrShutdown}
+						}
+					}
+					return gocbcore.SimAnswer{}
+				}
+			}
 			for i := 0; i < nreb; i++ {
 				// (schedule window: the END(closed) notifications of the rebalance's own close may be processed
 				// before or after the observers stop forwarding ends)
 				vrt.Window(true)
 				e.Stream.Rebalance()
+				if p.CloseFault {
+					vrt.Sleep(70 * time.Second) // a lost reply runs into the request's one-minute time-out
+				}
 				vrt.Sleep(3 * time.Second)
 				vrt.Quiesce()
 				c.WaitIdle()
